@@ -171,6 +171,14 @@ def generate(ctx):
         for patch, tags in junk_stream(rng, doc, quick):
             cs = 1 if rng.random() < 0.7 else 0
             cases.append(case(cs, doc, patch, tags))
+    # `test` without a "value" member, on paths that designate nothing and on paths that designate something (both sides absent must not
+    # count as equal), alone and guarding a destructive operation
+    if ctx.get('seed_index', 0) == 0:
+        for doc in (Obj([('keep', 1), ('l', [1, 2])]), [1, 2], Obj()):
+            for path in ('/lock', '/l/7', '/keep', '/l/0', '', '/keep/x', '/-'):
+                t = Obj([('op', 'test'), ('path', path)])
+                for ops in ([t], [t, G.mk_op('remove', '/keep')], [t, G.mk_op('add', '/new', 1)]):
+                    cases.append(case(1, copy.deepcopy(doc), copy.deepcopy(ops), ['test-without-value']))
     # the number comparison of `test`: pairs on both sides of the relative tolerance at every magnitude (tiny, subnormal, around 1, huge)
     if ctx.get('seed_index', 0) == 0:
         for x, y in G.NUM_PAIRS + [(1e-20, 2e-20), (1e-20, 0), (1e-17, -1e-17), (0.25, 0.25000000000000006), (1e-5, 1.0000000000000002e-5)]:
